@@ -256,8 +256,24 @@ def _backend_worker(args):
             h = hashlib.blake2b(shared + pka + pkb, digest_size=64).digest()
             if rc != 0 or rs != 0 or rx.raw != tx2.raw or tx.raw != rx2.raw or rx.raw != h[:32] or tx.raw != h[32:]:
                 fails.append(("crypto_kx_session_keys/" + key, "not cross-equal / not BLAKE2b-512(q||client_pk||server_pk)"))
-    # low-order peers are refused by box_beforenm and kx
+    # peer keys in other encodings of the same point (bit 255 set; u + p where u < 19 does not occur for honest keys): RFC 7748 ignores the bit, so
+    # every key-agreement API must succeed and derive from the same shared point; kx hashes the public keys as given
     import ec25519 as ec
+    for i in range(min(6, len(kpairs))):
+        ska, pka = kpairs[i]; skb, pkb = kpairs[(i + 1) % len(kpairs)]
+        pkb_hi = pkb[:31] + bytes([pkb[31] | 0x80]); pka_hi = pka[:31] + bytes([pka[31] | 0x80])
+        shared = ec.x25519(ska, pkb); n += 4
+        if lib.crypto_scalarmult(q, ska, pkb_hi) != 0 or q.raw != shared: fails.append(("crypto_scalarmult/%s/peer-key-bit255/pair=%d" % (tag, i), "differs from the result for the same point without the bit"))
+        lib.crypto_box_beforenm(k1, pkb, ska); r = lib.crypto_box_beforenm(k2, pkb_hi, ska)
+        if r != 0 or k1.raw != k2.raw: fails.append(("crypto_box_beforenm/%s/peer-key-bit255/pair=%d" % (tag, i), "ret %d or different key" % r))
+        lib.crypto_box_curve25519xchacha20poly1305_beforenm(k1, pkb, ska); r = lib.crypto_box_curve25519xchacha20poly1305_beforenm(k2, pkb_hi, ska)
+        if r != 0 or k1.raw != k2.raw: fails.append(("crypto_box_xchacha_beforenm/%s/peer-key-bit255/pair=%d" % (tag, i), "ret %d or different key" % r))
+        rc = lib.crypto_kx_client_session_keys(rx, tx, pka, ska, pkb_hi); h = hashlib.blake2b(shared + pka + pkb_hi, digest_size=64).digest()
+        if rc != 0 or rx.raw != h[:32] or tx.raw != h[32:]: fails.append(("crypto_kx_client_session_keys/%s/server-key-bit255/pair=%d" % (tag, i), "ret %d; keys must be BLAKE2b-512(q||client_pk||server_pk as given)" % rc))
+        sh2 = ec.x25519(skb, pka)
+        rs = lib.crypto_kx_server_session_keys(rx2, tx2, pkb, skb, pka_hi); h2 = hashlib.blake2b(sh2 + pka_hi + pkb, digest_size=64).digest()
+        if rs != 0 or tx2.raw != h2[:32] or rx2.raw != h2[32:]: fails.append(("crypto_kx_server_session_keys/%s/client-key-bit255/pair=%d" % (tag, i), "ret %d; keys must be BLAKE2b-512(q||client_pk as given||server_pk)" % rs))
+    # low-order peers are refused by box_beforenm and kx
     for lo in (le(0), le(1), le(325606250916557431795983626356110631294008115727848805560023387167927233504), le(P - 1), le(P), le(P + 1)):
         ska, pka = kpairs[0]
         n += 1
